@@ -253,3 +253,140 @@ func c04AssertUnchanged(e *c04Env, prefix string, gid tss.GroupID, pre c04Snapsh
 	vs.Assert(prefix+"-members-unchanged", vs.And(c04SameFlags(post.malicious, pre.malicious), c04SamePoints(post.pubKeys, pre.pubKeys)))
 	vs.Assert(prefix+"-accumulated-commits-unchanged", c04SamePoints(post.acc, pre.acc))
 }
+
+// c04All returns a flag vector with every member set.
+func c04All(n int) []bool {
+	r := make([]bool, n)
+	for i := range r {
+		r[i] = true
+	}
+	return r
+}
+
+// c04OwnPub: the public key member id must end up with: the image of the sum of the shares dealt to it,
+// (sum_m f_m(id))·G, computed from the secret polynomials (independent of the accumulated commitments).
+func c04OwnPub(dealers []c04Dealer, id tss.MemberID) tss.Point {
+	var shares tss.Scalars
+	for m := range dealers {
+		sh, err := tss.ComputeSecretShare(dealers[m].coeffs, id)
+		vs.Assert("env-share-ok", err == nil)
+		shares = append(shares, sh)
+	}
+	return tss.SumScalars(shares...).Point()
+}
+
+// c04OwnPriv: the matching private key (sum of the shares dealt to member id).
+func c04OwnPriv(dealers []c04Dealer, id tss.MemberID) tss.Scalar {
+	var shares tss.Scalars
+	for m := range dealers {
+		sh, err := tss.ComputeSecretShare(dealers[m].coeffs, id)
+		vs.Assert("env-share-ok", err == nil)
+		shares = append(shares, sh)
+	}
+	return tss.SumScalars(shares...)
+}
+
+// c04EnterRound2 puts group gid into the state the real end-blocker leaves after a complete round 1: every
+// member's round-1 info stored, accumulated commitments = sums, status ROUND_2 (or `status`), group public key
+// = accumulated commitment 0.
+func c04EnterRound2(e *c04Env, gid tss.GroupID, dealers []c04Dealer, status types.GroupStatus) {
+	c04StoreRound1(e, gid, dealers, c04All(len(dealers)))
+	c04SetStatus(e, gid, status, e.k.GetAccumulatedCommit(e.ctx, gid, 0))
+}
+
+// c04ArbitraryShares: n-1 encrypted shares with arbitrary content (the chain never looks inside in round 2).
+func c04ArbitraryShares(k int) tss.EncSecretShares {
+	var out tss.EncSecretShares
+	for i := 0; i < k; i++ {
+		out = append(out, tss.EncSecretShare(vs.Bytes("encrypted_share", 48)))
+	}
+	return out
+}
+
+// c04StoreRound2 stores the round-2 submission `shares[m]` of every member in `in` (real AddRound2Info) and the
+// member public key the real SubmitDKGRound2 derives at that moment (invariant: a member that has submitted
+// round 2 has its own public key registered; the others have none yet).
+func c04StoreRound2(e *c04Env, gid tss.GroupID, dealers []c04Dealer, in []bool, shares []tss.EncSecretShares) {
+	for m := range dealers {
+		if !in[m] {
+			continue
+		}
+		id := tss.MemberID(m + 1)
+		e.k.AddRound2Info(e.ctx, gid, types.Round2Info{MemberID: id, EncryptedSecretShares: shares[m]})
+		mem := e.k.MustGetMember(e.ctx, gid, id)
+		mem.PubKey = c04OwnPub(dealers, id)
+		vs.Assume(mem.PubKey.Validate() == nil)
+		e.k.SetMember(e.ctx, mem)
+	}
+}
+
+// ---------- round 3 ----------
+
+const (
+	c04r3None = iota
+	c04r3Confirmed
+	c04r3Complained
+)
+
+// c04Slot: position of recipient `to` in dealer `from`'s list of n-1 encrypted shares (ids in ascending order
+// without the dealer), counted independently of types.FindMemberSlot.
+func c04Slot(from, to tss.MemberID) int {
+	slot := 0
+	for id := tss.MemberID(1); id < to; id++ {
+		if id != from {
+			slot++
+		}
+	}
+	return slot
+}
+
+// c04DealtShare: what dealer `from` puts into recipient `to`'s slot: the encryption (real Encrypt under the real
+// Diffie-Hellman key) of f_from(to), or of f_from(to)+delta (delta != 0) when corrupt.
+func c04DealtShare(dealers []c04Dealer, from, to tss.MemberID, corrupt bool) tss.EncSecretShare {
+	share, err := tss.ComputeSecretShare(dealers[from-1].coeffs, to)
+	vs.Assert("env-share-ok", err == nil)
+	if corrupt {
+		share = tss.SumScalars(share, tss.Scalar(vs.ScalarBytes("delta_share")))
+	}
+	keySym, err := tss.ComputeSecretSym(dealers[from-1].otPriv, dealers[to-1].otPub)
+	vs.Assert("env-sym-ok", err == nil)
+	enc, err := tss.Encrypt(share, keySym, c04kNonce{})
+	vs.Assert("env-encrypt-ok", err == nil)
+	return enc
+}
+
+// c04EnterRound3 puts group gid into the state the real code leaves after complete rounds 1 and 2: all round-1
+// infos, accumulated commitments, group key, every member's round-2 info `shares[m]` and every member's public
+// key derived by the REAL UpdateMemberPubKey from the accumulated commitments; status ROUND_3 (or `status`).
+func c04EnterRound3(e *c04Env, gid tss.GroupID, dealers []c04Dealer, shares []tss.EncSecretShares, status types.GroupStatus) {
+	c04StoreRound1(e, gid, dealers, c04All(len(dealers)))
+	c04SetStatus(e, gid, status, e.k.GetAccumulatedCommit(e.ctx, gid, 0))
+	for m := range dealers {
+		id := tss.MemberID(m + 1)
+		e.k.AddRound2Info(e.ctx, gid, types.Round2Info{MemberID: id, EncryptedSecretShares: shares[m]})
+		vs.Assume(c04OwnPub(dealers, id).Validate() == nil)
+		err := e.k.UpdateMemberPubKey(e.ctx, gid, id)
+		vs.Assert("env-member-key-derived", err == nil)
+		mem := e.k.MustGetMember(e.ctx, gid, id)
+		vs.Assert("env-member-key-is-image-of-its-shares", bytes.Equal(mem.PubKey, c04OwnPub(dealers, id)))
+	}
+}
+
+// c04StoreRound3 stores earlier round-3 submissions (real AddConfirm / AddComplaintsWithStatus: record + count)
+// and arbitrary blame flags.
+func c04StoreRound3(e *c04Env, gid tss.GroupID, state []int, malicious []bool) {
+	for m := range state {
+		id := tss.MemberID(m + 1)
+		switch state[m] {
+		case c04r3Confirmed:
+			e.k.AddConfirm(e.ctx, gid, types.NewConfirm(id, nil))
+		case c04r3Complained:
+			e.k.AddComplaintsWithStatus(e.ctx, gid, types.ComplaintsWithStatus{MemberID: id, ComplaintsWithStatus: []types.ComplaintWithStatus{
+				{Complaint: types.Complaint{Complainant: id, Respondent: id%tss.MemberID(len(state)) + 1}, ComplaintStatus: types.COMPLAINT_STATUS_FAILED},
+			}})
+		}
+		mem := e.k.MustGetMember(e.ctx, gid, id)
+		mem.IsMalicious = malicious[m] // symbolic flag, no fork
+		e.k.SetMember(e.ctx, mem)
+	}
+}
